@@ -60,7 +60,20 @@ REQUIRED_CLASSES = ['top:' + c for c in TOP_CLASSES] + [
     'References:cleared_offset', 'StatMech:references_cleared_offset', 'Nasa9:n_sites_None',
     'Nasa9:n_sites_int', 'Shomate:n_sites_int', 'Nasa:n_sites_without_cat_site', 'misc_models:empty_list',
     'BEP:backlinks_distinct', 'BEP:backlinks_shared', 'SurfaceReaction:use_motz_wise',
-    'SurfaceReaction:beta_None', 'SurfaceReaction:sticking_None', 'FreeTrans:no_molecular_weight']
+    'SurfaceReaction:beta_None', 'SurfaceReaction:sticking_None', 'FreeTrans:no_molecular_weight',
+    # needle classes: order of a list attribute, context dependent defaults, pre-encoding histories
+    'Nasa9:unsorted_intervals', 'Nasa9:descending_intervals', 'T:on_interior_bound', 'T:on_outer_bound',
+    'x:on_breakpoint', 'x:above_last_breakpoint',
+    'SurfaceReaction:adsorption_beta_1', 'SurfaceReaction:adsorption_beta_0', 'SurfaceReaction:adsorption_beta_None',
+    'SurfaceReaction:plain_beta_0', 'SurfaceReaction:plain_beta_1', 'SurfaceReaction:plain_beta_None',
+    'SurfaceReaction:adsorption_sticking_0.5', 'SurfaceReaction:plain_sticking_0.5',
+    'SurfaceReaction:adsorption_sticking_None', 'ChemkinReaction:adsorption_beta_0',
+    'ChemkinReaction:adsorption_beta_1', 'ChemkinReaction:plain_beta_0', 'ChemkinReaction:plain_sticking_given',
+    'ChemkinReaction:adsorption_sticking_0.5', 'Nasa:n_sites_1_without_cat_site', 'Nasa:cat_site_n_sites_None',
+    'gas:add_gas_P_adj_False', 'gas:explicit_GasPressureAdj', 'nongas:explicit_GasPressureAdj',
+    'nongas:add_gas_P_adj_False', 'history:cov_insert_above_last', 'history:cov_pop_last',
+    'history:cov_pop_inner', 'history:cov_insert_inner', 'history:refs_append', 'history:refs_pop',
+    'history:refs_refit', 'history:refs_clear_offset']
 # to_dict of every class must have been seen running; from_dict of every class that the
 # unchanged registry knows (a class that silently stops being decoded makes the run inconclusive
 # if it does not already make it a violation)
@@ -168,9 +181,43 @@ def g_mode(rng, kind):
 def g_cov(rng):
     n = rng.randint(1, 4)
     iv = sorted(set([0.0] + [_r(rng, 0.05, 1.0, 3) for _ in range(n - 1)]))
-    return {'type': 'PiecewiseCovEffect', 'name_i': rng.choice(NAMES), 'name_j': rng.choice(NAMES),
+    node = {'type': 'PiecewiseCovEffect', 'name_i': rng.choice(NAMES), 'name_j': rng.choice(NAMES),
             'intervals': iv, 'slopes': [_rz(rng, -60, 60, 2) for _ in iv],
             'name': rng.choice([None, 'cov_1', 'lat_A_B'])}
+    if rng.random() < 0.5:
+        node['history'] = g_cov_history(rng, iv)
+    return node
+
+
+def g_cov_history(rng, iv):
+    """edits applied to the live object before it is encoded (insert anywhere incl. above the last
+    breakpoint and on an existing one, pop of the last / an inner breakpoint, never pop(0))"""
+    cur = list(iv)
+    ops = []
+    for _ in range(rng.randint(1, 4)):
+        kind = rng.choice(['insert_above', 'insert_inner', 'insert_equal', 'pop_last', 'pop_inner'])
+        if kind == 'insert_above':
+            x = round(min(1.0, cur[-1] + rng.uniform(0.0, 0.3)), 3)
+            if x < cur[-1]:
+                x = cur[-1]
+            ops.append(['insert', x, _rz(rng, -60, 60, 2)])
+            cur = sorted(cur + [x])
+        elif kind == 'insert_inner':
+            x = round(rng.uniform(0.001, max(0.002, cur[-1])), 3)
+            ops.append(['insert', x, _rz(rng, -60, 60, 2)])
+            cur = sorted(cur + [x])
+        elif kind == 'insert_equal':
+            x = rng.choice(cur)
+            ops.append(['insert', x, _rz(rng, -60, 60, 2)])
+            cur = sorted(cur + [x])
+        elif kind == 'pop_last' and len(cur) > 1:
+            ops.append(['pop', len(cur) - 1])
+            cur.pop()
+        elif kind == 'pop_inner' and len(cur) > 2:
+            i = rng.randint(1, len(cur) - 2)
+            ops.append(['pop', i])
+            cur.pop(i)
+    return ops
 
 
 def g_catsite(rng):
@@ -236,8 +283,29 @@ def g_references(rng, fitted=True):
     elif u < 0.5:
         # fitted, then clear_offset(): offset == {} while the reference species are still there
         cleared = True
-    return {'type': 'References', 'references': refs, 'offset': offset, 'descriptor': 'elements',
+    node = {'type': 'References', 'references': refs, 'offset': offset, 'descriptor': 'elements',
             'T_ref': T_ref, 'cleared': cleared}
+    if rng.random() < 0.4:
+        # history on the live container before encoding
+        ops = []
+        n = len(refs)
+        for _ in range(rng.randint(1, 3)):
+            k = rng.choice(['append', 'pop', 'refit', 'clear_offset'])
+            if k == 'append':
+                comp = {e: rng.randint(1, 4) for e in rng.sample(els, rng.randint(1, len(els)))}
+                r = g_reference(rng, 'ref_new_%d' % n, comp)
+                r['T_ref'] = T_ref
+                ops.append(['append', r])
+                n += 1
+            elif k == 'pop' and n > 1:
+                ops.append(['pop', rng.choice([-1, 0, rng.randint(0, n - 1)])])
+                n -= 1
+            elif k == 'refit':
+                ops.append(['refit'])
+            elif k == 'clear_offset':
+                ops.append(['clear_offset'])
+        node['history'] = ops
+    return node
 
 
 def _fix_range(sp, rng):
@@ -259,10 +327,18 @@ def g_empirical(rng, kind, name, rich=True, phase=None):
     if kind == 'Nasa':
         sp = S.gen_nasa(rng, name=name, phase=phase)
     elif kind == 'Nasa9':
-        sp = S.gen_nasa9(rng, name=name, phase=phase, n_seg=rng.randint(1, 3))
+        sp = S.gen_nasa9(rng, name=name, phase=phase, n_seg=rng.randint(1, 4))
     else:
         sp = S.gen_shomate(rng, name=name, phase=phase, units=rng.choice(['J/mol/K', 'J/mol/K', 'cal/mol/K', 'eV/K']))
     _fix_range(sp, rng)
+    if kind == 'Nasa9' and len(sp['nasas']) > 1:
+        # the order of the interval list is the object's own (a temperature on a shared bound is
+        # resolved by list order): ascending, descending or shuffled
+        u = rng.random()
+        if u < 0.3:
+            sp['nasas'].reverse()
+        elif u < 0.6:
+            rng.shuffle(sp['nasas'])
     if not rich:
         sp['plain'] = True
         return sp
@@ -279,9 +355,23 @@ def g_empirical(rng, kind, name, rich=True, phase=None):
         sp['misc_models'] = [g_cov(rng) for _ in range(rng.randint(1, 2))]
     elif rng.random() < 0.15:
         sp['misc_models'] = []
-    if GEN_NO_P_ADJ and rng.random() < 0.15:
-        sp['phase'] = 'G'
+    _p_adj_options(rng, sp)
+    return sp
+
+
+def _p_adj_options(rng, sp):
+    """phase x add_gas_P_adj x an explicitly attached GasPressureAdj (each combination is legal)"""
+    if not GEN_NO_P_ADJ:
+        return sp
+    u = rng.random()
+    if u < 0.12:
         sp['add_gas_P_adj'] = False
+    if rng.random() < 0.12:
+        mm = list(sp.get('misc_models') or [])
+        mm.insert(rng.randint(0, len(mm)), {'type': 'GasPressureAdj'})
+        sp['misc_models'] = mm
+    if ('add_gas_P_adj' in sp or sp.get('misc_models')) and rng.random() < 0.5:
+        sp['phase'] = rng.choice(['G', 'g', 'gas', 'S', None])
     return sp
 
 
@@ -336,16 +426,20 @@ def g_reaction(rng, cls='Reaction', pool=None, rich=None, kinds=None, names=None
         node['transition_state'] = ['@bep']
         node['transition_state_stoich'] = [1]
     if cls == 'ChemkinReaction':
+        # defaults: beta=1, sticking_coeff=0.5 (forced to None unless is_adsorption)
         node['beta'] = rng.choice([1.0, 0.0, _r(rng, -1, 2, 2)])
-        node['is_adsorption'] = rng.random() < 0.4
-        node['sticking_coeff'] = rng.choice([0.5, _r(rng, 0.01, 1, 3)])
+        node['is_adsorption'] = rng.random() < 0.5
+        node['sticking_coeff'] = rng.choice([0.5, 0.5, 1.0, _r(rng, 0.01, 1, 3)])
     if cls == 'SurfaceReaction':
         node['id'] = rng.choice([None, None, 7, 'r_0012', 'BEP_CH_cle_0001'])
-        node['is_adsorption'] = rng.random() < 0.4
+        # context dependent defaults: beta None -> 0 for an adsorption, 1 otherwise; sticking_coeff
+        # None -> 0.5 for an adsorption.  Every explicit value that equals the OTHER context's
+        # default is drawn in both contexts.
+        node['is_adsorption'] = rng.random() < 0.5
         node['A'] = rng.choice([None, None, S.logu(rng, 1e8, 1e15)])
-        node['beta'] = rng.choice([None, None, 0.0, 1.0, _r(rng, -1, 2, 2)])
+        node['beta'] = rng.choice([None, 0.0, 1.0, _r(rng, -1, 2, 2)])
         node['Ea'] = rng.choice([None, None, 0.0, _r(rng, 0, 50, 3)])
-        node['sticking_coeff'] = rng.choice([None, None, 1.0, _r(rng, 0.01, 1, 3)])
+        node['sticking_coeff'] = rng.choice([None, 0.5, 1.0, _r(rng, 0.01, 1, 3)])
         node['direction'] = rng.choice([None, 'cleavage', 'synthesis'])
         node['use_motz_wise'] = rng.random() < 0.4
     if own:
@@ -595,6 +689,86 @@ def directed(tier):
     D.append({'cls': 'StatMech', 'obj': sm3, 'cycles': 1, 'conds': g_conds(r2)})
     D.append({'cls': 'FreeTrans', 'obj': {'type': 'FreeTrans', 'n_degrees': 2, 'molecular_weight': None},
               'cycles': 1, 'conds': g_conds(r2)})
+    # ---- round 3: needle classes, crossed systematically (own PRNG again) -------------------------
+    r3 = random.Random('C11:directed:round3')
+    # Nasa9 interval lists in every order of 2 and 3 intervals
+    import itertools
+    for n_seg in (2, 3):
+        base = _fix_range(S.gen_nasa9(r3, name='CO2', phase='G', n_seg=n_seg), r3)
+        for perm in itertools.permutations(range(n_seg)):
+            sp = copy.deepcopy(base)
+            sp['nasas'] = [sp['nasas'][i] for i in perm]
+            D.append({'cls': 'Nasa9', 'obj': sp, 'cycles': 1 + (perm[0] % 2), 'conds': g_conds(r3)})
+    # context dependent defaults x the explicit value that equals the other context's default
+    base = g_reaction(r3, 'SurfaceReaction', kinds=['Nasa'], rich=False)
+    base.pop('bep', None)
+    base.update(transition_state=None, transition_state_stoich=None)
+    for ads in (True, False):
+        for beta in (None, 0.0, 1.0, 0.37):
+            for sc in (None, 0.5, 0.25):
+                sp = copy.deepcopy(base)
+                sp.update(is_adsorption=ads, beta=beta, sticking_coeff=sc, A=None, Ea=None)
+                D.append({'cls': 'SurfaceReaction', 'obj': sp, 'cycles': 1, 'conds': g_conds(r3)[:2]})
+    base = g_reaction(r3, 'ChemkinReaction', rich=False)
+    base.pop('bep', None)
+    base.update(transition_state=None, transition_state_stoich=None)
+    for ads in (True, False):
+        for beta in (0.0, 1.0, 0.37):
+            for sc in (0.5, 0.25, 1.0):
+                sp = copy.deepcopy(base)
+                sp.update(is_adsorption=ads, beta=beta, sticking_coeff=sc)
+                D.append({'cls': 'ChemkinReaction', 'obj': sp, 'cycles': 1, 'conds': g_conds(r3)[:2]})
+    for ns in (None, 1, 2):
+        for cs in (None, g_catsite(r3)):
+            sp = g_empirical(r3, 'Nasa', 'CO(S)', rich=False)
+            sp.pop('plain')
+            sp.update(n_sites=ns, phase='S')
+            if cs:
+                sp['cat_site'] = cs
+            D.append({'cls': 'Nasa', 'obj': sp, 'cycles': 1, 'conds': g_conds(r3)})
+    if GEN_NO_P_ADJ:
+        for kind in ('Nasa', 'Nasa9', 'Shomate'):
+            for phase in ('G', 'gas', 'S', None):
+                for flag in (True, False):
+                    for mm in (None, [], [{'type': 'GasPressureAdj'}], [g_cov(r3), {'type': 'GasPressureAdj'}]):
+                        sp = g_empirical(r3, kind, 'H2O', rich=False, phase=phase if phase else None)
+                        sp.pop('plain')
+                        sp['phase'] = phase
+                        if not flag:
+                            sp['add_gas_P_adj'] = False
+                        if mm is not None:
+                            sp['misc_models'] = copy.deepcopy(mm)
+                        D.append({'cls': kind, 'obj': sp, 'cycles': 1, 'conds': g_conds(r3)[:2]})
+    # histories on the live object before it is encoded
+    covb = {'type': 'PiecewiseCovEffect', 'name_i': 'CO(S)', 'name_j': 'O(S)', 'intervals': [0.0, 0.3, 0.6],
+            'slopes': [10.0, -20.0, 35.0], 'name': 'lat'}
+    for hist in ([['pop', 2]], [['pop', 1]], [['insert', 0.8, 5.0]], [['insert', 0.45, 5.0]], [['insert', 0.3, 5.0]],
+                 [['pop', 2], ['pop', 1]], [['insert', 0.9, -3.0], ['pop', 3]], [['pop', 2], ['insert', 0.5, 2.0]],
+                 [['insert', 1.0, 1.0], ['insert', 1.0, 2.0], ['pop', 4]]):
+        D.append({'cls': 'PiecewiseCovEffect', 'obj': dict(copy.deepcopy(covb), history=hist), 'cycles': 2,
+                  'conds': g_conds(r3)})
+    sm4 = g_statmech(r3, 'CO(S)', rich=False)
+    sm4.pop('plain')
+    sm4['misc_models'] = [dict(copy.deepcopy(covb), history=[['pop', 2]]),
+                          dict(copy.deepcopy(covb), history=[['insert', 0.8, 5.0], ['pop', 1]])]
+    D.append({'cls': 'StatMech', 'obj': sm4, 'cycles': 1, 'conds': g_conds(r3)})
+    for hist_kinds in (['append'], ['pop'], ['refit'], ['clear_offset'], ['append', 'refit'], ['pop', 'refit'],
+                       ['clear_offset', 'append'], ['append', 'pop', 'clear_offset', 'refit']):
+        refs = g_references(r3, fitted=True)
+        refs.update(offset=None, cleared=False)
+        els = sorted({e for r in refs['references'] for e in r['elements']})
+        ops = []
+        for k in hist_kinds:
+            if k == 'append':
+                r = g_reference(r3, 'ref_new', {e: r3.randint(1, 3) for e in els})
+                r['T_ref'] = refs['T_ref']
+                ops.append(['append', r])
+            elif k == 'pop':
+                ops.append(['pop', -1] if len(refs['references']) > 1 else ['refit'])
+            else:
+                ops.append([k])
+        refs['history'] = ops
+        D.append({'cls': 'References', 'obj': refs, 'cycles': 1, 'conds': g_conds(r3)})
     return D
 
 
@@ -679,14 +853,29 @@ def build(node):
                           T_ref=node['T_ref'])
         if node.get('cleared'):
             refs.clear_offset()
+        for op in node.get('history') or []:
+            if op[0] == 'append':
+                refs.append(build(op[1]))
+            elif op[0] == 'pop':
+                refs.pop(op[1])
+            elif op[0] == 'refit':
+                refs.fit_HoRT_offset()
+            else:
+                refs.clear_offset()
         return refs
     if t == 'GasPressureAdj':
         from pmutt.empirical import GasPressureAdj
         return GasPressureAdj()
     if t == 'PiecewiseCovEffect':
         from pmutt.mixture.cov import PiecewiseCovEffect
-        return PiecewiseCovEffect(name_i=node['name_i'], name_j=node['name_j'], intervals=list(node['intervals']),
-                                  slopes=list(node['slopes']), name=node['name'])
+        cov = PiecewiseCovEffect(name_i=node['name_i'], name_j=node['name_j'], intervals=list(node['intervals']),
+                                 slopes=list(node['slopes']), name=node['name'])
+        for op in node.get('history') or []:
+            if op[0] == 'insert':
+                cov.insert(op[1], op[2])
+            else:
+                cov.pop(op[1])
+        return cov
     if t == 'CatSite':
         from pmutt.chemkin import CatSite
         return CatSite(name=node['name'], site_density=node['site_density'], density=node['density'],
@@ -989,6 +1178,18 @@ class Cmp:
                     own_dirty = True
                     ctx.fail('J4', self.mech(**dict({'class': cn, 'step': 'attr', 'attr': name}, **tag)),
                              got=_short(got), want=_short(want))
+            if isinstance(getattr(a, 'nasas', None), list) and isinstance(getattr(b, 'nasas', None), list):
+                # the ORDER of the interval list is part of the object (list order decides which
+                # interval answers on a shared bound)
+                oa = [[float(n.T_low), float(n.T_high)] for n in a.nasas]
+                try:
+                    ob = [[float(n.T_low), float(n.T_high)] for n in b.nasas]
+                except Exception:                  # noqa: members are not intervals (reported above)
+                    ob = None
+                if ob is not None and sorted(oa) == sorted(ob):
+                    if not ctx.check('J4', oa == ob, self.mech(**dict({'class': cn, 'step': 'attr', 'attr': 'nasas',
+                                                                    'what': 'order'}, **tag)), got=ob, want=oa):
+                        own_dirty = True
             if own_dirty or child_dirty:
                 ex = ctx.extra.setdefault('getters_shadowed', {})
                 ex[cn] = ex.get(cn, 0) + 1
@@ -1007,8 +1208,9 @@ class Cmp:
         ctx = self.ctx
         dirty = False
         has_ts = getattr(a, 'transition_state', None) is not None
+        conds = list(self.conds) + _boundary_conds(a, self.conds[0], ctx if not telemetry else None)
         for name, plan in _getter_plans(type(a)):
-            for cond in self.conds:
+            for cond in conds:
                 # BEP getters take the reaction they belong to as an argument: the enclosing
                 # ORIGINAL reaction (or the probe reaction of a stand-alone BEP) for both sides
                 rxn_arg = self.rxn_stack[-1] if (self.rxn_stack and self.rxn_stack[-1] is not a) \
@@ -1054,6 +1256,53 @@ class Cmp:
                     dirty = True
                     ctx.fail('J3', m, got=fb, want=fa, err=e, tol=TOL, kwargs=_short(kw))
         return dirty
+
+
+def _boundary_conds(a, base, ctx):
+    """Extra evaluation conditions that sit EXACTLY on the object's own break points: every
+    temperature bound of an empirical species (T_low / T_mid / T_high, every interval bound of a
+    Nasa9) and every coverage breakpoint of a piecewise model plus one coverage above the last."""
+    out = []
+    Ts = []
+    try:
+        nasas = getattr(a, 'nasas', None)
+        if isinstance(nasas, list):
+            bounds = [float(b) for n in nasas for b in (n.T_low, n.T_high)]
+            lo, hi = min(bounds), max(bounds)
+            Ts = [(t, 'outer' if t in (lo, hi) else 'interior') for t in bounds]
+        else:
+            v = vars(a)
+            for k, tag in (('T_low', 'outer'), ('T_mid', 'interior'), ('T_high', 'outer')):
+                if _num(_plain(v.get(k))):
+                    Ts.append((float(v[k]), tag))
+    except Exception:                              # noqa: odd object, no boundary conditions
+        Ts = []
+    seen = set()
+    for t, tag in Ts:
+        if t in seen or len(seen) >= 7:
+            continue
+        seen.add(t)
+        c = dict(base)
+        c.pop('T_arr', None)
+        c['T'] = t
+        out.append(c)
+        if ctx is not None:
+            ctx.cls('T:on_%s_bound' % tag)
+    iv = vars(a).get('intervals') if hasattr(a, '__dict__') else None
+    if isinstance(iv, list) and iv and all(_num(_plain(x)) for x in iv):
+        xs = []
+        for x in iv:
+            if float(x) not in xs:
+                xs.append(float(x))
+        xs = xs[:6]
+        for x in xs:
+            out.append(dict(base, x=x))
+            if ctx is not None:
+                ctx.cls('x:on_breakpoint')
+        out.append(dict(base, x=float(max(iv)) + 0.05))
+        if ctx is not None:
+            ctx.cls('x:above_last_breakpoint')
+    return out
 
 
 def _tele(ctx, cn, name):
@@ -1405,6 +1654,47 @@ def _classify(spec, ctx):
             ctx.cls('StatMech:references_cleared_offset')
         if t == 'References' and node.get('cleared'):
             ctx.cls('References:cleared_offset')
+        if t == 'Nasa9' and len(node['nasas']) > 1:
+            lows = [n['T_low'] for n in node['nasas']]
+            if lows == sorted(lows, reverse=True):
+                ctx.cls('Nasa9:descending_intervals', 'Nasa9:unsorted_intervals')
+            elif lows != sorted(lows):
+                ctx.cls('Nasa9:unsorted_intervals')
+        if t in ('SurfaceReaction', 'ChemkinReaction'):
+            kind = 'adsorption' if node.get('is_adsorption') else 'plain'
+            b = node.get('beta')
+            if b is None or b in (0.0, 1.0):
+                ctx.cls('%s:%s_beta_%s' % (t, kind, 'None' if b is None else int(b)))
+            sc = node.get('sticking_coeff')
+            if sc is None:
+                ctx.cls('%s:%s_sticking_None' % (t, kind))
+            elif sc == 0.5:
+                ctx.cls('%s:%s_sticking_0.5' % (t, kind))
+            if t == 'ChemkinReaction' and kind == 'plain' and sc is not None:
+                ctx.cls('ChemkinReaction:plain_sticking_given')
+        if t == 'Nasa':
+            if node.get('n_sites') == 1 and not node.get('cat_site'):
+                ctx.cls('Nasa:n_sites_1_without_cat_site')
+            if node.get('cat_site') and 'n_sites' in node and node['n_sites'] is None:
+                ctx.cls('Nasa:cat_site_n_sites_None')
+        if t in ('Nasa', 'Nasa9', 'Shomate'):
+            gas = str(node.get('phase')).lower() in ('g', 'gas')
+            if node.get('add_gas_P_adj') is False:
+                ctx.cls('gas:add_gas_P_adj_False' if gas else 'nongas:add_gas_P_adj_False')
+            if any(isinstance(m, dict) and m.get('type') == 'GasPressureAdj' for m in node.get('misc_models') or []):
+                ctx.cls('gas:explicit_GasPressureAdj' if gas else 'nongas:explicit_GasPressureAdj')
+        if t == 'PiecewiseCovEffect' and node.get('history'):
+            cur = list(node['intervals'])
+            for op in node['history']:
+                if op[0] == 'insert':
+                    ctx.cls('history:cov_insert_above_last' if op[1] >= cur[-1] else 'history:cov_insert_inner')
+                    cur = sorted(cur + [op[1]])
+                else:
+                    ctx.cls('history:cov_pop_last' if op[1] == len(cur) - 1 else 'history:cov_pop_inner')
+                    cur.pop(op[1])
+        if t == 'References' and node.get('history'):
+            for op in node['history']:
+                ctx.cls('history:refs_' + op[0])
         if t == 'Nasa9' and 'n_sites' in node:
             ctx.cls('Nasa9:n_sites_None' if node['n_sites'] is None else 'Nasa9:n_sites_int')
         if t == 'Shomate' and node.get('n_sites') is not None:
